@@ -22,6 +22,9 @@ import (
 // semaphore of K slots. Bursts, failures after the slot was taken (I/O error while listing the
 // interfaces), cancellations and semaphore time-outs (fake clock) are interleaved by the scheduler.
 func c31(r *sim.R) *sim.Violation {
+	if r.T.Draw(3) == 0 {
+		return c31srv(r)
+	}
 	t := r.T
 	wd := newWorld(r)
 	defer simfs.Install(wd.fs)()
